@@ -19,7 +19,7 @@ DEFAULT = dict(
     strings=1.0, lists=0.0, random=0.0, shuffles=0.0, externals=0.0, faults=0.0, flows=0,
     fallback=0.6, labels=0.6, readcounts=1.0, stitches=0.5, impure_functions=0.3,
     assign_after_newline=1.0, unicode=0.0, floats=0.0, hostvar=0, turns=1.0, msgs=0.0, ext_in_strings=0.0,
-    ext_counters=0, retype=0.4, ext_markers=0, temps=1.0, seq_inline=0,
+    ext_counters=0, retype=0.4, ext_markers=0, temps=1.0, seq_inline=0, ext_count=0,
 )
 
 
@@ -180,6 +180,9 @@ class Gen:
         if c < 0.88 and self.functions:
             f = r.choice(self.functions)
             return "{%s(%s)}" % (f["name"], ", ".join(self.int_expr(0, temps) for _ in f["params"]))
+        if self.lists and self.w["random"] and r.random() < 0.08 * self.w["random"] * self.w["lists"]:
+            v, ln = r.choice(self.lists + [("lmix", None)] * 2 if any(x[0] == "lmix" for x in self.lists) else self.lists)
+            return "{%s(%s)}" % (r.choice(["LIST_RANDOM", "LIST_RANDOM", "LIST_MIN", "LIST_MAX"]), v)
         if c < 0.91 and self.lists and self.w["lists"]:
             c2 = r.random()
             v, ln = r.choice(self.lists)
@@ -353,6 +356,13 @@ class Gen:
                 out += self.choice_block(level + 1, depth - 1, temps, knot, knot_index, targets)
             if self.w["msgs"] and r.random() < 0.25 * self.w["msgs"]:
                 if r.random() < 0.5:
+                    # a warning in the very continue that then hits the error
+                    self.wt_n = getattr(self, "wt_n", 0) + 1
+                    out.append("  " * level + "{ false:")
+                    out.append("  " * level + "  ~ temp wt%d = 0" % self.wt_n)
+                    out.append("  " * level + "}")
+                    out.append("  " * level + "%s {wt%d}" % (self.word(), self.wt_n))
+                if r.random() < 0.5:
                     out.append("  " * level + "~ dv = 0")
                     out.append("  " * level + self.word())
                     out.append("  " * level + "-> dv")
@@ -406,7 +416,7 @@ class Gen:
         if w["msgs"]:
             L.append("VAR dv = -> k0")
         for v in self.ints:
-            L.append("VAR %s = %d" % (v, r.randint(0, 5)))
+            L.append("VAR %s = %d" % (v, r.randint(0, 5) if r.random() < 0.8 else -r.randint(1, 7)))
         for v in self.bools:
             L.append("VAR %s = %s" % (v, r.choice(["true", "false"])))
         for v in self.strs:
@@ -434,7 +444,7 @@ class Gen:
             self.lists.append(("lmix", self.listdefs[0][0]))
         # externals
         if w["externals"]:
-            for i in range(r.randint(1, 2)):
+            for i in range(max(w["ext_count"], r.randint(1, 2))):
                 ar = r.randint(1, 3) if not w["ext_markers"] else r.randint(1, 2)
                 self.externals.append(dict(name="ext%d" % i, arity=ar,
                                            spec=dict(impl="lin", coef=[100, 10, 1][3 - ar:], add=100 if ar == 1 else 0)))
